@@ -133,6 +133,27 @@ Theorem C12_blocked_until_ready : forall s r,
 Proof. exact blocked_until_ready. Qed.
 Print Assumptions C12_blocked_until_ready.
 
+(* whoever reports a failed item while nothing else is left waits for the re-authentication (it never
+   fails on the spot); with something left it goes on at once *)
+Theorem C12_report_waits : forall s r b s',
+  Vault.step s (Invalidate r b) = Some s' ->
+  (cur s' = [] -> b = true /\ rget r s' = RBlocked /\ ready s' = false) /\
+  (cur s' <> [] -> b = false /\ rget r s' = RIdle).
+Proof. exact report_waits. Qed.
+Print Assumptions C12_report_waits.
+
+(* progress of EVERY blocked requester: nothing the others or the authenticator do unblocks or fails it;
+   once the vault is ready and non-empty it can resume, can only resume (no LoginError), and the fresh
+   items are still there for it to select *)
+Theorem C12_blocked_progress : forall s r,
+  rget r s = RBlocked ->
+  (forall l s', Vault.step s l = Some s' -> (forall o, l <> Wake r o) -> rget r s' = RBlocked) /\
+  (ready s = true -> cur s <> [] ->
+     (exists s', Vault.step s (Wake r WResumed) = Some s' /\ rget r s' = RIdle /\ cur s' = cur s /\ ready s' = true) /\
+     (forall o s', Vault.step s (Wake r o) = Some s' -> o = WResumed)).
+Proof. exact blocked_progress. Qed.
+Print Assumptions C12_blocked_progress.
+
 (* "invalidated credentials are not reused": true within the remembered history (3 per key) ... *)
 Theorem C12_no_reuse_of_invalid_partial : forall src tr s k it,
   Vault.run (init src) tr = Some s -> lookupn k (cur s) = Some it ->
